@@ -225,6 +225,10 @@ func frames() []struct {
 	}
 	for _, fc := range []uint8{1, 2, 3, 4} {
 		rq(fmt.Sprintf("req-fc%d", fc), spec.Req{FC: fc, Addr: 0x6B, Qty: 3})
+		// well-formed requests whose range runs past the end of the address space (whatever a parser thinks of them, an
+		// error comes with a nil value)
+		rq(fmt.Sprintf("req-fc%d-past-65535", fc), spec.Req{FC: fc, Addr: 0xFFFF, Qty: 2})
+		rq(fmt.Sprintf("req-fc%d-past-65535-max", fc), spec.Req{FC: fc, Addr: 0xFFF0, Qty: 125})
 		for _, n := range []int{2, 20, 250} {
 			rs(fmt.Sprintf("resp-fc%d-%d", fc, n), spec.Resp{FC: fc, Data: lib.Pattern("pos", n, 0)})
 		}
